@@ -1,5 +1,5 @@
-\* every single request and every batch of one entry over the full member alphabet; REPAIRED model = the pure property
-\* measured: see checks/C11.py evidence (about 0.6 M distinct states)
+\* REPAIRED model (all switches TRUE) = the pure property; same space as JsonRpc_table.cfg
+\* measured: 569 162 distinct states, depth 8
 CONSTANTS
   Methods <- MCMethods
   EntryAlphabet <- EntriesFull
@@ -11,8 +11,8 @@ CONSTANTS
   FixNonRequest = TRUE
   FixLongWs = TRUE
   FarChoices = {FALSE}
-INIT Init
-NEXT Next
-VIEW view
+INIT TableInit
+NEXT TableNextQuiet
+VIEW fullview
 INVARIANTS TypeOK PShape POnePerEntry PResponses PTopLevel PInvocations PInFlight
 CHECK_DEADLOCK FALSE
